@@ -242,6 +242,17 @@ func verifyRun(opts *RunOpts) (*Run, error) {
 		}
 		run.Bounded = br
 	}
+	if opts.Prop == "C11" {
+		reps := 16
+		if opts.Tier == "thorough" {
+			reps = 64
+		}
+		br, err := runBoundedDeterminism(opts, reps)
+		if err != nil {
+			run.ExtraNotes = append(run.ExtraNotes, "bounded stand-in did not run: "+err.Error())
+		}
+		run.Bounded = append(run.Bounded, br...)
+	}
 	run.GenS = time.Since(t1).Seconds()
 	t2 := time.Now()
 	if err := run.solve(); err != nil {
